@@ -185,9 +185,7 @@ def r3(R3, cfg, F):
     R3.check(ci == ['<T as anycache::Cache>::insert', 'anycache::RawCache::add_asset'], cfg, 'anycache::AssetMap::insert', 'callers={add_asset,Cache::insert}',
              'AssetMap::insert may be called only from RawCache::add_asset and Cache::insert; callers: %s' % ci)
     cc = callers(r'anycache::Cache(>)?::insert$')
-    R3.check(cc == ['anycache::CacheExt::add_any'], cfg, 'anycache::Cache::insert', 'callers={add_any}', 'Cache::insert may be called only from CacheExt::add_any; callers: %s' % cc)
-    ca = callers(r'^anycache::CacheExt::add_any$')
-    R3.check(ca == ['anycache::CacheExt::_get_or_insert'], cfg, 'anycache::CacheExt::add_any', 'callers={_get_or_insert}', 'add_any may be called only from _get_or_insert; callers: %s' % ca)
+    R3.check(cc == ['anycache::CacheExt::_get_or_insert'], cfg, 'anycache::Cache::insert', 'callers={get_or_insert}', 'Cache::insert may be called only by get_or_insert (directly or through its add_any helper, which is looked through); callers: %s' % cc)
     caa = callers(r'^anycache::RawCache::add_asset$')
     R3.check(caa == ['<T as anycache::Cache>::load_entry'], cfg, 'anycache::RawCache::add_asset', 'callers={load_entry}', 'add_asset may be called only from Cache::load_entry; callers: %s' % caa)
     # add_any only on the None arm of the lookup
@@ -196,11 +194,15 @@ def r3(R3, cfg, F):
         R3.missing(cfg, '_get_or_insert')
     else:
         look = [c for c in b.calls() if c.callee and c.callee.name == '_get_cached_entry']
-        add = [c for c in b.calls() if c.callee and c.callee.name == 'add_any']
+        add = [c for c in b.calls() if c.callee and c.callee.defp == 'anycache::Cache::insert']
+        mk = [c for c in b.calls() if c.callee and c.callee.best == 'entry::CacheEntry::new']
         ok = False
-        if len(look) == 1 and len(add) == 1:
-            ok = common.guarded_by_variant(b, add[0].bb, [['call@bb%d' % look[0].bb]], 0)
-            ok = ok and PARAM(b, add[0], 1) == ['arg2'] and PARAM(b, add[0], 2) == ['arg3']
+        if len(look) == 1 and len(add) == 1 and len(mk) == 1:
+            ok = common.guarded_by_variant(b, add[0].bb, [['call@bb%d' % look[0].bb]], 0) and common.guarded_by_variant(b, mk[0].bb, [['call@bb%d' % look[0].bb]], 0)
+            pt = common.make_pt(r'convert::(From|Into)<.*>>::(from|into)$', r'Clone>::clone$', r'ToOwned>::to_owned$', r'^std::convert::(From::from|Into::into)$')
+            # the entry stored is CacheEntry::new(default, id, ..) of this very call
+            ok = ok and ('call', mk[0].bb) in b.origins(add[0].args[1]) and b.origins(mk[0].args[0]) == {('arg', 3)} \
+                and b.origins(mk[0].args[1], passthrough=pt) == {('arg', 2)} and PARAM(b, look[0], 1) == ['arg2']
         R3.check(ok, cfg, b.path, 'add_any-only-on-absent', 'get_or_insert must insert (id, default) only when the lookup found nothing', b.loc())
     # load_entry: add_asset only on the None arm
     b = F.body('<T as anycache::Cache>::load_entry')
